@@ -188,16 +188,19 @@ CHECKS = {
         'line breaks in metadata (fix: 435735a), rows with #-keys dropped by from_csv (fix: b0ef295).',
         '§4 C15'),
     'C16': (
-        'Coq proof (decision table of the I/O helper + content semantics for any codecs with the two round-trip laws; suffix/prefix tests) + per-run vm_compute correspondence of the decisions and an EXECUTED exhaustive product of source kinds x readers / writers',
-        'Machine-checked theorems: for every argument kind (str path or URL, .gz name, open text stream, open binary stream, anything else), any text/bytes '
-        'types and ANY codecs with decode(encode c) = c and gunzip(gzip b) = b: the handle returned for reading delivers exactly the text c the source '
-        'carries, so every reader built on it gives the same result for every kind; the writer leaves in every kind of target exactly the material a reader '
-        'of that kind reads back as c; any other argument raises ValueError; looks_gzipped is exactly "ends with .gz", looks_like_url exactly "starts with '
-        'http:// or https://". PARTIAL BY NATURE: which Python object falls into which kind (isinstance) and the codecs are runtime behaviour - the '
-        'correspondence executes the whole product (4 readers x 8 source kinds x ASCII/non-ASCII, 2 writers x 4 target kinds, 7 other argument types) on '
-        'every run and compares the helper\'s decisions for 26 arguments and 170 strings with the model.',
-        'Trusted: Coq kernel + vm_compute; runtime type classification, UTF-8 and gzip. URL sources are not opened (no network). Streams were rejected '
-        'outright (isinstance(fh, typing.IO)): genuine defect fixed in /repo (see known_findings.json).',
+        'Coq proof (decision table of the I/O helper incl. the text layer it creates - encoding selection and newline mode - + content semantics for any codecs with the two round-trip laws; universal-newline translation; suffix/prefix tests) + per-run vm_compute correspondence of the decisions and layers and an EXECUTED exhaustive product of source kinds x readers / writers x line endings x two process configurations',
+        'Machine-checked theorems: for every argument kind (str path or URL, .gz name, open text stream, open binary stream, anything else), any bytes '
+        'type and ANY codecs with decode(encode c) = c (for the REQUESTED encoding only - nothing is assumed of the locale\'s codec, no handle the helper creates uses it) '
+        'and gunzip(gzip b) = b: every handle the helper opens for reading delivers the content with its line endings translated (LF, CR LF and CR '
+        'variants of one text are delivered as the same text, never a carriage return), a caller\'s text stream opened the default way yields that very text, so every reader '
+        'built on it gives the same result for every kind; the writer leaves in every kind of target exactly the material a reader of that kind reads back '
+        '(stated for os.linesep = LF; the CR LF platform caveat is a model-level example); any other argument raises ValueError; looks_gzipped is exactly "ends with .gz", '
+        'looks_like_url exactly "starts with http:// or https://". PARTIAL BY NATURE: which Python object falls into which kind (isinstance) and the codecs are '
+        'runtime behaviour - the correspondence executes the whole product (4 readers x 11 source kinds x ASCII/non-ASCII x LF/CRLF/CR, 2 writers x 4 target kinds, 7 other '
+        'argument types; again under LC_ALL=C without UTF-8 mode) on every run and compares the helper\'s decisions and the observed text layer (handle.encoding under default and latin-1 requests; '
+        'probe text delivered / emitted) for 26 arguments and 170 strings with the model.',
+        'Trusted: Coq kernel + vm_compute; runtime type classification, UTF-8 and gzip. URL sources are not opened (no network). Three genuine defects fixed in /repo '
+        '(streams rejected outright; CR LF content through a .gz path; plain-path writer ignoring the encoding - see known_findings.json).',
         '§4 C16'),
     'C18': (
         'Coq proof (helpers, exists_path and augment_* over the proved graph model; union of closures for any collection) + per-run vm_compute correspondence with src/hpotk/algorithm/_traversal.py, _augment.py',
